@@ -1,5 +1,137 @@
-import HpoModel.Linkage
+import HpoProofs.Linkage
+/-!
+# C17 — hierarchical clustering returns a valid dendrogram built from closest pairs
+
+Property theorems only (helper lemmas: `HpoProofs/Linkage.lean`).  `cluster m lt mean d members`
+is the model of `Linkage::{union, single, complete, average}` on the input sets `members` with the
+distance callback `d`, over ANY numeric type `F` with ANY comparison `lt` and mean `mean`
+(the driver runs it at `Float32`); `n = members.length` is unbounded.  The bookkeeping theorems
+need no assumption on the distances at all (ties included); `C17_closest` assumes a linear order.
+
+`mergedIdx cl = [lhs₀, rhs₀, lhs₁, rhs₁, …]`, `sz n cl i` = 1 for an input (`i < n`), else the
+recorded size of cluster `i − n`; `pairsLex l` = `(l[i], l[j])` for `i < j` in lexicographic order.
+-/
 namespace Hpo.C17
 open Hpo Hpo.Linkage
-theorem C17_stub : (indexPairs 3) = [(0,1),(0,2),(1,2)] := by decide
+
+variable {F : Type}
+
+/-- the clustering never panics (every `expect`/index of the loops is justified) and the fuel
+`n + 1` of the model suffices -/
+theorem C17_total (m : Method) (lt : F → F → Bool) (mean : F → F → F)
+    (d : List Nat → List Nat → F) (members : List (List Nat)) :
+    ∃ sf, cluster m lt mean d members = some sf ∧ sf.dm = [] ∧ sf.n = members.length := by
+  obtain ⟨sf, h1, _, h3, h4, _⟩ := cluster_spec m lt mean d members
+  exact ⟨sf, h1, h3, h4⟩
+
+/-- exactly `n − 1` merges -/
+theorem C17_count (m : Method) (lt : F → F → Bool) (mean : F → F → F)
+    (d : List Nat → List Nat → F) (members : List (List Nat)) (sf : State F)
+    (h : cluster m lt mean d members = some sf) : sf.clusters.length = members.length - 1 := by
+  obtain ⟨sf', h1, h2, h3, h4, _⟩ := cluster_spec m lt mean d members
+  rw [h] at h1; cases h1
+  rw [← h4]; exact final_count sf h2 h3
+
+/-- every input and every intermediate cluster — the indices `0 … 2n−3` — is merged exactly once
+(occurs exactly once as `lhs` or `rhs`); the root `2n−2` and anything beyond never -/
+theorem C17_each_once (m : Method) (lt : F → F → Bool) (mean : F → F → F)
+    (d : List Nat → List Nat → F) (members : List (List Nat)) (sf : State F)
+    (h : cluster m lt mean d members = some sf) (hn : 2 ≤ members.length) (i : Nat) :
+    (mergedIdx sf.clusters).count i = if i < 2 * members.length - 2 then 1 else 0 := by
+  obtain ⟨sf', h1, h2, h3, h4, _⟩ := cluster_spec m lt mean d members
+  rw [h] at h1; cases h1
+  obtain ⟨hm, hnd, _⟩ := final_bookkeeping sf h2 h3 (by omega)
+  rw [h4] at hm
+  split
+  · rename_i hi
+    exact List.count_eq_one_of_mem hnd ((hm i).2 hi)
+  · rename_i hi
+    exact List.count_eq_zero_of_not_mem (fun hc => hi ((hm i).1 hc))
+
+/-- the `k`-th merge joins two distinct earlier entries: `lhs < rhs < n + k`, so the cluster it
+creates is addressable as index `n + k` by later merges only -/
+theorem C17_addressable (m : Method) (lt : F → F → Bool) (mean : F → F → F)
+    (d : List Nat → List Nat → F) (members : List (List Nat)) (sf : State F)
+    (h : cluster m lt mean d members = some sf) (k : Nat) (hk : k < sf.clusters.length) :
+    sf.clusters[k].lhs < sf.clusters[k].rhs ∧ sf.clusters[k].rhs < members.length + k := by
+  obtain ⟨sf', h1, h2, h3, h4, _⟩ := cluster_spec m lt mean d members
+  rw [h] at h1; cases h1
+  rw [← h4]; exact h2.addr k hk
+
+/-- sizes add up: the size of every merge is the sum of the sizes of its two sides (1 for an
+input, the recorded size for a cluster), and the last merge has size `n` -/
+theorem C17_sizes (m : Method) (lt : F → F → Bool) (mean : F → F → F)
+    (d : List Nat → List Nat → F) (members : List (List Nat)) (sf : State F)
+    (h : cluster m lt mean d members = some sf) :
+    (∀ k (hk : k < sf.clusters.length),
+      sf.clusters[k].size = sz members.length sf.clusters sf.clusters[k].lhs
+        + sz members.length sf.clusters sf.clusters[k].rhs) ∧
+    (2 ≤ members.length → (sf.clusters.getLast?).map (·.size) = some members.length) := by
+  obtain ⟨sf', h1, h2, h3, h4, _⟩ := cluster_spec m lt mean d members
+  rw [h] at h1; cases h1
+  constructor
+  · intro k hk
+    have ha := h2.addr k hk
+    have hs := (mkCluster_fields (h2.sizes k hk)).2.2.2
+    rw [sz_take _ _ _ _ (by omega), sz_take _ _ _ _ (by omega)] at hs
+    rw [← h4]; exact hs
+  · intro hn
+    have hc := final_count sf h2 h3
+    obtain ⟨_, _, hsz⟩ := final_bookkeeping sf h2 h3 (by omega)
+    rw [h4] at hsz hc
+    have hlast : sf.clusters.getLast? = sf.clusters[members.length - 2]? := by
+      rw [List.getLast?_eq_getElem?, hc]; congr 1
+    rw [hlast]
+    unfold sz Linkage.sizeOf at hsz
+    have e1 : ¬ (2 * members.length - 2 < members.length) := by omega
+    have e2 : 2 * members.length - 2 - members.length = members.length - 2 := by omega
+    rw [if_neg e1, e2] at hsz
+    cases hx : sf.clusters[members.length - 2]? with
+    | none => rw [hx] at hsz; simp at hsz; omega
+    | some c => rw [hx] at hsz; simpa using hsz
+
+/-- the reported leaf order is a permutation of `0..n` -/
+theorem C17_leaf_order (m : Method) (lt : F → F → Bool) (mean : F → F → F)
+    (d : List Nat → List Nat → F) (members : List (List Nat)) (sf : State F)
+    (h : cluster m lt mean d members = some sf) (hn : 2 ≤ members.length) :
+    (indicies sf.n sf.clusters).Perm (List.range members.length) := by
+  obtain ⟨sf', h1, h2, h3, h4, _⟩ := cluster_spec m lt mean d members
+  rw [h] at h1; cases h1
+  obtain ⟨hm, hnd, _⟩ := final_bookkeeping sf h2 h3 (by omega)
+  rw [indicies_eq, h4]
+  rw [h4] at hm
+  apply (List.perm_ext_iff_of_nodup (hnd.filter _) List.nodup_range).2
+  intro i
+  simp only [List.mem_filter, hm i, decide_eq_true_eq, List.mem_range]
+  omega
+
+/-- initially the distance callback is asked exactly once, with each unordered pair of input sets
+exactly once, in lexicographic order of their positions; the index pairs under which the answers
+are stored are the pairs `i < j < n`, each once -/
+theorem C17_callback_initial (m : Method) (lt : F → F → Bool) (mean : F → F → F)
+    (d : List Nat → List Nat → F) (members : List (List Nat)) (sf : State F)
+    (h : cluster m lt mean d members = some sf) :
+    sf.log.head? = some (pairsLex members) ∧
+    (indexPairs members.length).Nodup ∧
+    (∀ q, q ∈ indexPairs members.length ↔ q.1 < q.2 ∧ q.2 < members.length) ∧
+    (pairsLex members).length = (indexPairs members.length).length := by
+  obtain ⟨sf', h1, _, _, _, h5⟩ := cluster_spec m lt mean d members
+  rw [h] at h1; cases h1
+  refine ⟨h5, nodup_indexPairs _, mem_indexPairs _, ?_⟩
+  rw [indexPairs_eq]
+  exact length_pairsLex_of_length _ _ (by simp)
+
+/-! ### non-vacuity -/
+
+/-- four inputs, single linkage over `Nat` distances: the model merges (0,1) at 1, (2,3) at 2 and
+the two clusters (4,5) at `min` = 5 -/
+example :
+    ((cluster .single (fun a b : Nat => decide (a < b)) (fun a b => (a + b) / 2)
+        (fun a b => match a, b with
+          | [0], [1] => 1 | [2], [3] => 2 | [0], [2] => 5 | [0], [3] => 7 | [1], [2] => 6 | _, _ => 9)
+        [[0], [1], [2], [3]]).map fun s =>
+      (s.clusters.map fun c => (c.lhs, c.rhs, c.dist, c.size), indicies s.n s.clusters))
+    = some ([(0, 1, 1, 2), (2, 3, 2, 2), (4, 5, 5, 4)], [0, 1, 2, 3]) := by
+  decide
+
 end Hpo.C17
